@@ -95,21 +95,23 @@ Section Sizing.
     bind (pydiv (mul (of_Z (c * cw)) H) (mul W (of_Z ch))) pyceil.
 
   (* lines 538-565, on the scaled size W x H, cell size cw x ch, resolved limits mc, mr;
-     at most one of cols/rows is Some here *)
-  Definition optimal_core (W H : num) (cw ch : Z) (cols rows : option Z) (mc mr : Z) : res (Z * Z) :=
+     at most one of cols/rows is Some here.  Wa x Ha is the size from which a dimension is DERIVED from the
+     other one (the aspect ratio): the scaled size in the pinned tree, the unscaled size since the repair of
+     F-C15b (Gen.aspect_unscaled) — the scale cancels in exact arithmetic, not in floats *)
+  Definition optimal_core (W H Wa Ha : num) (cw ch : Z) (cols rows : option Z) (mc mr : Z) : res (Z * Z) :=
     let cols_auto := is_none cols in
     let rows_auto := is_none rows in
     bind (match cols, rows with
           | None, None =>
               bind (bind (pydiv W (of_Z cw)) pyceil) (fun c =>
               bind (bind (pydiv H (of_Z ch)) pyceil) (fun r => Ok (c, r)))
-          | None, Some r => bind (cols_from_rows W H cw ch r) (fun c => Ok (c, r))
-          | Some c, None => bind (rows_from_cols W H cw ch c) (fun r => Ok (c, r))
+          | None, Some r => bind (cols_from_rows Wa Ha cw ch r) (fun c => Ok (c, r))
+          | Some c, None => bind (rows_from_cols Wa Ha cw ch c) (fun r => Ok (c, r))
           | Some c, Some r => Ok (c, r)
           end) (fun '(c, r) =>
-    bind (if cols_auto && (mc <? c) then bind (rows_from_cols W H cw ch mc) (fun r' => Ok (mc, r'))
+    bind (if cols_auto && (mc <? c) then bind (rows_from_cols Wa Ha cw ch mc) (fun r' => Ok (mc, r'))
           else Ok (c, r)) (fun '(c, r) =>
-    bind (if rows_auto && (mr <? r) then bind (cols_from_rows W H cw ch mr) (fun c' => Ok (c', mr))
+    bind (if rows_auto && (mr <? r) then bind (cols_from_rows Wa Ha cw ch mr) (fun c' => Ok (c', mr))
           else Ok (c, r)) (fun '(c, r) =>
     Ok (Z.max final_min_cols (Z.min c mc), Z.max final_min_rows (Z.min r mr))))).
 
@@ -131,8 +133,9 @@ Section Sizing.
     mul (cfg_global_scale cfg) (match local_scale with Some s => s | None => one end).
 
   (* get_optimal_cols_and_rows(width=w, height=h, cols=, rows=, max_cols=amc, max_rows=amr, scale=);
-     [cap] = the source caps explicit dimensions (Gen.caps_explicit) *)
-  Definition optimal_with (cap : bool) (cfg : config) (t : term) (w h : Z)
+     [cap] = the source caps explicit dimensions (Gen.caps_explicit); [asp] = a derived dimension is computed
+     from the unscaled size (Gen.aspect_unscaled) *)
+  Definition optimal_with (cap asp : bool) (cfg : config) (t : term) (w h : Z)
              (cols rows amc amr : option Z) (scale : option num) : res (Z * Z) :=
     match cols, rows with
     | Some c, Some r => Ok (c, r)
@@ -144,10 +147,12 @@ Section Sizing.
         let rows := if cap then option_map (fun r => Z.min r mr) rows else rows in
         let '(cw, ch) := get_cell_size (cfg_cell_size cfg) (cfg_default_cell_size cfg) t in
         let s := effective_scale cfg scale in
-        optimal_core (mul (of_Z w) s) (mul (of_Z h) s) cw ch cols rows mc mr)
+        optimal_core (mul (of_Z w) s) (mul (of_Z h) s)
+                     (if asp then of_Z w else mul (of_Z w) s) (if asp then of_Z h else mul (of_Z h) s)
+                     cw ch cols rows mc mr)
     end.
 
-  Definition get_optimal_cols_and_rows := optimal_with caps_explicit.
+  Definition get_optimal_cols_and_rows := optimal_with caps_explicit aspect_unscaled.
 End Sizing.
 
 (* ---------------------------------------------------------------- exact instance: rationals *)
